@@ -93,18 +93,28 @@ func (r Wrapper) ValidateDPoPProof(_ context.Context, request ValidateDPoPProofR
 		return ValidateDPoPProof200JSONResponse{Reason: &reason}, nil
 	}
 	// check if the jti is already used, if not add it to the store for the duration of the access token lifetime
-	var target struct{}
-	if err := r.useNonceOnceStore().Get(dpopToken.Token.JwtID(), &target); err != nil {
-		if !errors.Is(err, storage.ErrNotFound) {
-			log.Logger().WithError(err).Error("ValidateDPoPProof: failed to retrieve jti usage state")
-			return nil, err
+	// check and store in one step: of two concurrent validations of the same proof only one may find the jti unused
+	jtiUsed := false
+	err = storage.Atomically(func() error {
+		var target struct{}
+		if err := r.useNonceOnceStore().Get(dpopToken.Token.JwtID(), &target); err != nil {
+			if !errors.Is(err, storage.ErrNotFound) {
+				log.Logger().WithError(err).Error("ValidateDPoPProof: failed to retrieve jti usage state")
+				return err
+			}
+			if err := r.useNonceOnceStore().Put(dpopToken.Token.JwtID(), target); err != nil {
+				log.Logger().WithError(err).Error("ValidateDPoPProof: failed to store jti usage state")
+				return err
+			}
+		} else {
+			jtiUsed = true
 		}
-		if err := r.useNonceOnceStore().Put(dpopToken.Token.JwtID(), target); err != nil {
-			log.Logger().WithError(err).Error("ValidateDPoPProof: failed to store jti usage state")
-			return nil, err
-		}
-	} else {
-		// jti already used
+		return nil
+	})
+	if err != nil {
+		return nil, err
+	}
+	if jtiUsed {
 		reason := "jti already used"
 		return ValidateDPoPProof200JSONResponse{Reason: &reason}, nil
 	}
